@@ -335,6 +335,11 @@ enum Cls
     K_LAY_ADDR, K_LAY_RW, K_CONV_NARROW, K_CONV_TRUNC, K_CONV_WIDEN, K_CONV_SPECIAL,
     K_IOP_NAMED, K_IOP_SUBSCRIPT, K_IOP_CARRAY, K_IOP_DSUB,
     K_STR_DEFAULT, K_STR_FIXED, K_STR_PREC3, K_STR_SCI,
+    K_STR_SHOWPOS, K_STR_LEFT, K_STR_RIGHT, K_STR_UPPER, K_STR_HEXFLOAT, K_STR_HEXINT, K_STR_OCTINT, K_STR_SHOWBASE,
+    K_STR_NEGZERO, K_STR_INF, K_STR_NAN, K_STR_DENORM,
+    K_APX_FRACTIONAL, K_APX_NEGTOL, K_APX_NAN, K_APX_INF,
+    K_EQ_HETERO_UNREP,
+    K_IOP_BOTH, K_IOP_SUBREF,
     K__COUNT
 };
 inline const char* cls_name (int k)
@@ -348,7 +353,12 @@ inline const char* cls_name (int k)
         "layout.address-identities", "layout.write-one-path-read-another",
         "convert.narrowing", "convert.float-to-int-truncation", "convert.widening", "convert.special-value",
         "interop.named-members", "interop.subscript-type", "interop.c-array", "interop.double-subscript",
-        "stream.default-state", "stream.fixed", "stream.precision3", "stream.scientific"};
+        "stream.default-state", "stream.fixed", "stream.precision3", "stream.scientific",
+        "stream.showpos", "stream.left-adjust", "stream.right-adjust", "stream.uppercase", "stream.hexfloat", "stream.integer-hex", "stream.integer-oct", "stream.integer-showbase",
+        "stream.negative-zero-component", "stream.infinite-component", "stream.nan-component", "stream.denormal-component",
+        "approx.fractional-generic-tuple", "approx.negative-tolerance", "approx.nan-slot", "approx.infinite-slot",
+        "eq.mixed-element-types.value-not-representable-in-the-other-type",
+        "interop.named-members-and-reversed-subscript", "interop.reference-returning-subscript"};
     return n[k];
 }
 struct Tally
@@ -802,6 +812,37 @@ template <class A> struct EqTest
     }
 };
 
+// A value of type S next to `a` (of type T) that is NOT representable in T, so that an implementation which converts
+// one operand to the other's element type before comparing gives a different answer than the C++ comparison a == b of
+// the two scalar types:  floating S vs integral T: a + 1/2;  wider floating S vs narrower floating T: the S-neighbour of
+// a;  wider integral S vs narrower integral T: a + 2^bits(T).  Not applicable otherwise (every T value is an S value and
+// vice versa, or the C++ comparison itself converts S to T).
+template <class T, class S, bool Sflt = is_flt<S>::value, bool Tflt = is_flt<T>::value> struct Unrep
+{   // both integral
+    static bool get (T a, S& out)
+    {
+        if (sizeof (S) <= sizeof (T)) return false;
+        out = S (S (a) + (S (1) << (8 * sizeof (T))));
+        return true;
+    }
+};
+template <class T, class S> struct Unrep<T, S, true, false>
+{   // floating S, integral T
+    static bool get (T a, S& out) { out = S ((float) a + 0.5f); return true; }
+};
+template <class T, class S> struct Unrep<T, S, false, true>
+{   // integral S, floating T: the comparison converts S to T
+    static bool get (T, S&) { return false; }
+};
+inline float  up1 (float v) { return std::nextafter (v, 2 * v); }
+inline double up1 (double v) { return std::nextafter (v, 2 * v); }
+template <class T, class S> struct Unrep<T, S, true, true>
+{
+    static bool get (T a, S& out) { return get2 (a, out, std::integral_constant<bool, (sizeof (S) > sizeof (T))> ()); }
+    static bool get2 (T a, S& out, std::true_type) { out = up1 (S (a)); return true; }
+    static bool get2 (T, S&, std::false_type) { return false; }
+};
+
 // mixed element types: A<T> == A<S>
 template <class A, class A2> void eq_hetero (Tally& t)
 {
@@ -837,6 +878,29 @@ template <class A, class A2> void eq_hetero (Tally& t)
         T a[N];
         for (int i = 0; i < N; ++i) a[i] = ga[i];
         a[k] = T (ga[k] + T (1)); one (a, sa);
+    }
+    // exactly one component differs by a value the other element type cannot represent (either operand order is an
+    // instantiation of its own: the (S, T) pair is registered as well)
+    for (int k = 0; k < N; ++k)
+    {
+        S b[N];
+        for (int i = 0; i < N; ++i) b[i] = sa[i];
+        T a[N];
+        for (int i = 0; i < N; ++i) a[i] = T (sa[i]); // the same small primes in T
+        S u;
+        if (!Unrep<T, S>::get (a[k], u)) break;
+        b[k] = u;
+        if (a[k] == b[k]) { R ().fail ("oracle.precondition.hetero-unrepresentable-differs", tname<A> () + " S=" + ElName<S>::s () + " a_k=" + show (a[k]) + " b_k=" + show (b[k])); break; }
+        t.c[K_EQ_HETERO_UNREP]++;
+        bool all = true;
+        for (int i = 0; i < N; ++i) all = all && (a[i] == b[i]);
+        A  x = make<A> (a);
+        A2 y = make<A2> (b);
+        bool eq = (x == y), ne = (x != y);
+        t.transitions += 2; ++t.states;
+        std::string in = tname<A> () + " S=" + ElName<S>::s () + " a=" + show_tuple (a, N) + " b=" + show_tuple (b, N);
+        if (eq != all) R ().fail (nm + "::operator==<S>.value-not-representable-in-T", in, vf::fmt (all), vf::fmt (eq));
+        if (ne != !all) R ().fail (nm + "::operator!=<S>.value-not-representable-in-T", in, vf::fmt (!all), vf::fmt (ne));
     }
 }
 
@@ -923,10 +987,11 @@ template <class A> struct ApxTest
         t.instances += 2;
         T ga[N], gb[N], a[N], b[N];
         for (int rel = 0; rel < 2; ++rel)
-            for (int g = 0; g < 2; ++g)           // positive primes; negated primes (or, unsigned: wrapped)
+            for (int g = 0; g < NGENERIC; ++g)    // positive primes; negated primes (or, unsigned: wrapped); dyadic fractions p/8 (integers: large values)
                 for (int ez = 0; ez < 2; ++ez)    // tolerance e, and e = 0
                 {
                     generic_tuple<T> (g, N, ga, gb);
+                    if (g == 2 && is_flt<T>::value) t.c[K_APX_FRACTIONAL]++;
                     T e = ez ? T (0) : (rel ? Apx<T>::e_rel () : Apx<T>::e_abs ());
                     for (int i = 0; i < N; ++i) a[i] = b[i] = ga[i];
                     one (a, b, e, rel, -1);
@@ -965,6 +1030,69 @@ template <class A> struct ApxTest
                         }
                     }
                 }
+        run_special ();
+    }
+    // Inputs on which the documented definition  |a_i - b_i| <= e  resp.  <= e * |a_i|  is decided by IEEE special-value
+    // rules instead of by rounding: a negative tolerance (never satisfied, not even by identical operands, except
+    // 0 <= -0 for a zero component under the relative form - none here), and a NaN or an infinity in exactly one slot
+    // of one or both operands (inf - inf and 0 * inf are NaN, and NaN <= x is false). Site suffix ".special-operands".
+    void one_special (const T* a, const T* b, T e, bool rel, int cls)
+    {
+        bool want = true;
+        for (int i = 0; i < N; ++i)
+        {
+            long double d = fabsl (ld (a[i]) - ld (b[i]));
+            long double lim = rel ? ld (e) * fabsl (ld (a[i])) : ld (e);
+            want = want && (d <= lim);
+        }
+        A    x = make<A> (a), y = make<A> (b);
+        bool got = rel ? x.equalWithRelError (y, e) : x.equalWithAbsError (y, e);
+        ++t.transitions; ++t.states; t.c[cls]++;
+        if (got != want)
+            R ().fail (std::string (Agg<A>::name ()) + (rel ? "::equalWithRelError" : "::equalWithAbsError") + ".special-operands",
+                       tname<A> () + " a=" + show_tuple (a, N) + " b=" + show_tuple (b, N) + " e=" + show (e), vf::fmt (want), vf::fmt (got));
+    }
+    void run_special ()
+    {
+        T ga[N], gb[N], a[N], b[N];
+        for (int rel = 0; rel < 2; ++rel)
+        {
+            const T e = rel ? Apx<T>::e_rel () : Apx<T>::e_abs ();
+            if (std::numeric_limits<T>::is_signed || is_flt<T>::value)
+                for (int g = 0; g < NGENERIC; ++g)
+                {
+                    generic_tuple<T> (g, N, ga, gb);
+                    const T ne = T (-e);
+                    for (int i = 0; i < N; ++i) a[i] = b[i] = ga[i];
+                    one_special (a, b, ne, rel, K_APX_NEGTOL); // identical operands
+                    for (int k = 0; k < N; ++k)
+                    {   // one slot off by exactly |e| resp. |e|*|a_k| (inside the tolerance of the same magnitude)
+                        for (int i = 0; i < N; ++i) a[i] = b[i] = ga[i];
+                        T p;
+                        long double thr = rel ? ld (e) * fabsl (ld (ga[k])) : ld (e);
+                        if (!Apx<T>::fits (ld (ga[k]) + thr, p)) continue;
+                        b[k] = p;
+                        one_special (a, b, ne, rel, K_APX_NEGTOL);
+                    }
+                }
+            if (is_flt<T>::value)
+            {
+                std::vector<T> sp;
+                for (T x : alphaB<T> ()) if (Pred<T>::nan (x) || Pred<T>::inf (x)) sp.push_back (x);
+                generic_tuple<T> (0, N, ga, gb);
+                for (int ez = 0; ez < 2; ++ez)
+                    for (int k = 0; k < N; ++k)
+                        for (T x : sp)
+                            for (int where = 0; where < 4; ++where)
+                            {   // special in a_k; in b_k; in both; in a_k with the negated special in b_k
+                                for (int i = 0; i < N; ++i) a[i] = b[i] = ga[i];
+                                if (where != 1) a[k] = x;
+                                if (where == 1 || where == 2) b[k] = x;
+                                if (where == 3) b[k] = T (-x);
+                                one_special (a, b, ez ? T (0) : e, rel, Pred<T>::nan (x) ? K_APX_NAN : K_APX_INF);
+                            }
+            }
+        }
     }
 };
 
@@ -1364,6 +1492,51 @@ template <class A> void interop_vec (Tally& t)
         t.c[K_IOP_CARRAY] += 2;
     });
 }
+// Foreign types that qualify in two ways at once, or through a reference-returning subscript:
+//  * FBoth: named members x, y(, z(, w)) of type T AND an operator[] that enumerates them in REVERSE order. The
+//    statement's "one contiguous block of exactly N elements in declaration order" is the member order, and the
+//    headers give the named-member form precedence (has_subscript && !has_xy..): the result must follow the members
+//    (and the construction must not be ambiguous);
+//  * FSubRef: operator[] returns const T& (the trait decays the subscript's type).
+template <class T, int N> struct FBoth;
+template <class T> struct FBoth<T, 2> { T x, y; T operator[] (int i) const { return i == 0 ? y : x; } };
+template <class T> struct FBoth<T, 3> { T x, y, z; T operator[] (int i) const { return i == 0 ? z : i == 1 ? y : x; } };
+template <class T> struct FBoth<T, 4> { T x, y, z, w; T operator[] (int i) const { return i == 0 ? w : i == 1 ? z : i == 2 ? y : x; } };
+template <class T, int N> struct FSubRef
+{
+    T        e[N];
+    const T& operator[] (int i) const { return e[i]; }
+};
+template <class A> void interop_vec_extra (Tally& t)
+{
+    typedef typename Agg<A>::E T;
+    enum { N = Agg<A>::N };
+    std::string nm = Agg<A>::name ();
+    t.instances += 4;
+    T g0[N], g1[N];
+    generic_tuple<T> (1, N, g0, g1);
+    layout_tuples<T, N> ([&] (const T* v) {
+        std::string in = "src=" + show_tuple (v, N);
+        ++t.states; t.transitions += 4;
+        FBoth<T, N> f;
+        T*          fm = reinterpret_cast<T*> (&f); // members in declaration order (standard layout, same type)
+        for (int i = 0; i < N; ++i) fm[i] = v[i];
+        A a1 (f);
+        expect_tuple (nm + ".interop.construct(named-members+reversed-subscript)", a1, v, in);
+        A a2 = make<A> (g0);
+        a2 = f;
+        expect_tuple (nm + ".interop.assign(named-members+reversed-subscript)", a2, v, in);
+        t.c[K_IOP_BOTH] += 2;
+        FSubRef<T, N> s;
+        for (int i = 0; i < N; ++i) s.e[i] = v[i];
+        A a3 (s);
+        expect_tuple (nm + ".interop.construct(reference-returning-subscript)", a3, v, in);
+        A a4 = make<A> (g0);
+        a4 = s;
+        expect_tuple (nm + ".interop.assign(reference-returning-subscript)", a4, v, in);
+        t.c[K_IOP_SUBREF] += 2;
+    });
+}
 template <class A, int ROWS> void interop_matrix (Tally& t)
 {
     typedef typename Agg<A>::E T;
@@ -1453,13 +1626,162 @@ template <class T> inline bool stream_magnitude (int mag, int n, T* v)
     return true;
 }
 
+// Judge one printed aggregate against its components printed alone (non-template: shared by every instantiation).
+// `sfx` confines the site to the input class: "" for the five original stream states on generic tuples,
+// ".extended-state" for the flag product below, ".special-value" when a component is -0 / inf / NaN / denormal.
+inline void stream_judge (const std::string& nm, const std::string& sfx, const std::string& in, const std::string& text,
+                          const std::vector<std::string>& comp, int N, int ROWS, const char* (*slot) (int))
+{
+    // 1. one pair of parentheses around everything (matrices end with a newline after ')')
+    std::string body = text;
+    while (!body.empty () && (body.back () == '\n' || body.back () == ' ')) body.pop_back ();
+    if (body.size () < 2 || body.front () != '(' || body.back () != ')' || body.find ('(', 1) != std::string::npos ||
+        body.find (')') != body.size () - 1)
+    {
+        R ().fail (nm + "::operator<<.parentheses" + sfx, in, "( ... )", qstr (text));
+        return;
+    }
+    std::string inner = body.substr (1, body.size () - 2);
+    // 2. tokenise: exactly one token per component, each equal to the component's own text
+    std::vector<std::string> tok = split_ws (inner);
+    std::string want_line;
+    for (int k = 0; k < N; ++k) want_line += (k ? " " : "") + comp[k];
+    if ((int) tok.size () != N)
+    {
+        std::string site = nm + "::operator<<.tokens";
+        // recognisable sub-class: two adjacent components printed with no separator
+        if ((int) tok.size () == N - 1)
+            for (int k = 0; k + 1 < N; ++k)
+            {
+                bool fused = tok[k] == comp[k] + comp[k + 1];
+                for (int j = 0; fused && j < k; ++j) fused = tok[j] == comp[j];
+                for (int j = k + 2; fused && j < N; ++j) fused = tok[j - 1] == comp[j];
+                if (fused) { site += std::string (".fused-") + slot (k) + "-" + slot (k + 1); break; }
+            }
+        R ().fail (site + sfx, in, std::to_string (N) + " tokens: " + qstr (want_line), std::to_string (tok.size ()) + " tokens: " + qstr (text));
+        return;
+    }
+    for (int k = 0; k < N; ++k)
+        if (tok[k] != comp[k])
+        {
+            R ().fail (nm + "::operator<<.tokens" + sfx, in + " token " + std::to_string (k), qstr (comp[k]), qstr (tok[k]) + " in " + qstr (text));
+            return;
+        }
+    // 3. line structure
+    if (!ROWS)
+    {
+        if (text != "(" + want_line + ")")
+            R ().fail (nm + "::operator<<.format" + sfx, in, qstr ("(" + want_line + ")"), qstr (text));
+    }
+    else
+    {
+        std::vector<std::string> lines;
+        std::string cur;
+        for (char c : inner) { if (c == '\n') { lines.push_back (cur); cur.clear (); } else cur += c; }
+        lines.push_back (cur);
+        bool ok = (int) lines.size () == ROWS;
+        for (int r = 0; ok && r < ROWS; ++r) ok = (int) split_ws (lines[r]).size () == ROWS;
+        if (!ok) R ().fail (nm + "::operator<<.format" + sfx, in, std::to_string (ROWS) + " lines of " + std::to_string (ROWS) + " tokens", qstr (text));
+    }
+}
+
+// The extended stream-state product. The statement describes the output under formatting states that keep the fill
+// character a space and the adjustment left or right (a non-space fill or std::internal interacts with the matrix
+// inserters' deliberate setw-based column alignment, and a caller's setw(k) is consumed by the opening parenthesis:
+// both are outside the statement and not enumerated).
+//   floating element types: floatfield/precision {default, fixed, precision(3), fixed precision(3), scientific
+//                           precision(10), hexfloat} x adjustfield {unset, left, right} x showpos x uppercase  (72)
+//   integer element types:  basefield {dec, hex, oct} x showbase x adjustfield {unset, left, right} x showpos x uppercase (72)
+struct ExtState
+{
+    int  ff, adj, base;
+    bool showpos, upper, showbase;
+    void apply (std::ostream& o) const
+    {
+        switch (ff)
+        {
+            case 1: o << std::fixed; break;
+            case 2: o.precision (3); break;
+            case 3: o << std::fixed; o.precision (3); break;
+            case 4: o << std::scientific; o.precision (10); break;
+            case 5: o.setf (std::ios_base::fixed | std::ios_base::scientific, std::ios_base::floatfield); break; // hexfloat
+            default: break;
+        }
+        if (adj == 1) o << std::left; else if (adj == 2) o << std::right;
+        if (base == 1) o << std::hex; else if (base == 2) o << std::oct;
+        if (showpos) o << std::showpos;
+        if (upper) o << std::uppercase;
+        if (showbase) o << std::showbase;
+    }
+    std::string name () const
+    {
+        static const char* F[] = {"", "fixed ", "precision(3) ", "fixed precision(3) ", "scientific precision(10) ", "hexfloat "};
+        static const char* A[] = {"", "left ", "right "};
+        static const char* B[] = {"", "hex ", "oct "};
+        std::string n = std::string (F[ff]) + A[adj] + B[base] + (showpos ? "showpos " : "") + (upper ? "uppercase " : "") + (showbase ? "showbase " : "");
+        if (n.empty ()) return "default";
+        n.pop_back ();
+        return n;
+    }
+    bool original () const { return ff < 5 && !adj && !base && !showpos && !upper && !showbase; } // one of stream_states()
+    void classify (Tally& t) const
+    {
+        t.c[K_STR_SHOWPOS] += showpos; t.c[K_STR_LEFT] += adj == 1; t.c[K_STR_RIGHT] += adj == 2; t.c[K_STR_UPPER] += upper;
+        t.c[K_STR_HEXFLOAT] += ff == 5; t.c[K_STR_HEXINT] += base == 1; t.c[K_STR_OCTINT] += base == 2; t.c[K_STR_SHOWBASE] += showbase;
+    }
+};
+inline std::vector<ExtState> ext_states (bool integer_elements)
+{
+    std::vector<ExtState> out;
+    for (int x = 0; x < 6; ++x)
+        for (int adj = 0; adj < 3; ++adj)
+            for (int sp = 0; sp < 2; ++sp)
+                for (int up = 0; up < 2; ++up)
+                {
+                    ExtState e;
+                    e.adj = adj; e.showpos = sp; e.upper = up;
+                    if (integer_elements) { e.ff = 0; e.base = x % 3; e.showbase = x >= 3; }
+                    else { e.ff = x; e.base = 0; e.showbase = false; }
+                    out.push_back (e);
+                }
+    return out;
+}
+
+// print `a` and each of its components alone under the state installed by `apply`, and judge
+template <class A, class Apply> void stream_one (Tally& t, const typename Agg<A>::E* v, Apply&& apply, const std::string& state_name, const std::string& sfx)
+{
+    typedef typename Agg<A>::E T;
+    enum { N = Agg<A>::N, ROWS = Agg<A>::ROWS };
+    A                  a = make<A> (v);
+    std::ostringstream os;
+    apply (os);
+    os << a;
+    ++t.states; ++t.transitions;
+    // each component printed alone, under the caller's stream state (matrices: plus the
+    // showpoint / scientific-unless-fixed flags their operator<< installs for the elements)
+    std::vector<std::string> comp;
+    for (int k = 0; k < N; ++k)
+    {
+        std::ostringstream cs;
+        apply (cs);
+        if (ROWS)
+        {
+            if (!(cs.flags () & std::ios_base::fixed)) cs.setf (std::ios_base::scientific);
+            cs.setf (std::ios_base::showpoint);
+        }
+        cs << v[k];
+        comp.push_back (cs.str ());
+    }
+    stream_judge (Agg<A>::name (), sfx, tname<A> () + " state=" + state_name + " v=" + show_tuple (v, N), os.str (), comp, N, ROWS, &Agg<A>::slot);
+}
+
 template <class A> void stream_test (Tally& t)
 {
     typedef typename Agg<A>::E T;
     enum { N = Agg<A>::N, ROWS = Agg<A>::ROWS };
-    std::string nm = Agg<A>::name ();
     ++t.instances;
     T ga[N], gb[N];
+    // (a) the five original states x every generic tuple x every magnitude
     for (const StreamState& st : stream_states ())
         for (int g = 0; g < NGENERIC; ++g)
             for (int pass = 0; pass < 2; ++pass)
@@ -1470,83 +1792,40 @@ template <class A> void stream_test (Tally& t)
                 T vm[N];
                 for (int k = 0; k < N; ++k) vm[k] = pass ? gb[k] : ga[k];
                 if (!stream_magnitude<T> (mag, N, vm)) continue;
-                const T* v = vm;
-                A        a = make<A> (v);
-                std::ostringstream os;
-                st.apply (os);
-                os << a;
-                std::string text = os.str ();
-                ++t.states; ++t.transitions; t.c[st.cls]++;
-                // each component printed alone, under the caller's stream state (matrices: plus the
-                // showpoint / scientific-unless-fixed flags their operator<< installs for the elements)
-                std::vector<std::string> comp;
-                for (int k = 0; k < N; ++k)
-                {
-                    std::ostringstream cs;
-                    st.apply (cs);
-                    if (ROWS)
-                    {
-                        if (!(cs.flags () & std::ios_base::fixed)) cs.setf (std::ios_base::scientific);
-                        cs.setf (std::ios_base::showpoint);
-                    }
-                    cs << v[k];
-                    comp.push_back (cs.str ());
-                }
-                std::string in = tname<A> () + " state=" + st.name + " v=" + show_tuple (v, N);
-                // 1. one pair of parentheses around everything (matrices end with a newline after ')')
-                std::string body = text;
-                while (!body.empty () && (body.back () == '\n' || body.back () == ' ')) body.pop_back ();
-                if (body.size () < 2 || body.front () != '(' || body.back () != ')' || body.find ('(', 1) != std::string::npos ||
-                    body.find (')') != body.size () - 1)
-                {
-                    R ().fail (nm + "::operator<<.parentheses", in, "( ... )", qstr (text));
-                    continue;
-                }
-                std::string inner = body.substr (1, body.size () - 2);
-                // 2. tokenise: exactly one token per component, each equal to the component's own text
-                std::vector<std::string> tok = split_ws (inner);
-                std::string want_line;
-                for (int k = 0; k < N; ++k) want_line += (k ? " " : "") + comp[k];
-                if ((int) tok.size () != N)
-                {
-                    std::string site = nm + "::operator<<.tokens";
-                    // recognisable sub-class: two adjacent components printed with no separator
-                    if ((int) tok.size () == N - 1)
-                        for (int k = 0; k + 1 < N; ++k)
-                        {
-                            bool fused = tok[k] == comp[k] + comp[k + 1];
-                            for (int j = 0; fused && j < k; ++j) fused = tok[j] == comp[j];
-                            for (int j = k + 2; fused && j < N; ++j) fused = tok[j - 1] == comp[j];
-                            if (fused) { site += std::string (".fused-") + Agg<A>::slot (k) + "-" + Agg<A>::slot (k + 1); break; }
-                        }
-                    R ().fail (site, in, std::to_string (N) + " tokens: " + qstr (want_line), std::to_string (tok.size ()) + " tokens: " + qstr (text));
-                    continue;
-                }
-                bool tok_ok = true;
-                for (int k = 0; k < N && tok_ok; ++k)
-                    if (tok[k] != comp[k])
-                    {
-                        R ().fail (nm + "::operator<<.tokens", in + " token " + std::to_string (k), qstr (comp[k]), qstr (tok[k]) + " in " + qstr (text));
-                        tok_ok = false;
-                    }
-                if (!tok_ok) continue;
-                // 3. line structure
-                if (!ROWS)
-                {
-                    if (text != "(" + want_line + ")")
-                        R ().fail (nm + "::operator<<.format", in, qstr ("(" + want_line + ")"), qstr (text));
-                }
-                else
-                {
-                    std::vector<std::string> lines;
-                    std::string cur;
-                    for (char c : inner) { if (c == '\n') { lines.push_back (cur); cur.clear (); } else cur += c; }
-                    lines.push_back (cur);
-                    bool ok = (int) lines.size () == ROWS;
-                    for (int r = 0; ok && r < ROWS; ++r) ok = (int) split_ws (lines[r]).size () == ROWS;
-                    if (!ok) R ().fail (nm + "::operator<<.format", in, std::to_string (ROWS) + " lines of " + std::to_string (ROWS) + " tokens", qstr (text));
-                }
+                t.c[st.cls]++;
+                stream_one<A> (t, vm, st.apply, st.name, "");
             }
+    // special components (floating element types): each slot x {-0, +-inf, NaN, +-denorm_min}, the other slots generic
+    std::vector<T> special;
+    for (T x : alphaB<T> ())
+        if (Pred<T>::negzero (x) || Pred<T>::inf (x) || Pred<T>::nan (x) || Pred<T>::denorm (x)) special.push_back (x);
+    auto specials = [&] (const std::function<void (std::ostream&)>& apply, const std::string& name) {
+        for (int k = 0; k < N; ++k)
+            for (T x : special)
+            {
+                generic_tuple<T> (0, N, ga, gb);
+                ga[k] = x;
+                t.c[K_STR_NEGZERO] += Pred<T>::negzero (x); t.c[K_STR_INF] += Pred<T>::inf (x); t.c[K_STR_NAN] += Pred<T>::nan (x); t.c[K_STR_DENORM] += Pred<T>::denorm (x);
+                stream_one<A> (t, ga, apply, name, ".special-value");
+            }
+    };
+    for (const StreamState& st : stream_states ()) specials (st.apply, st.name);
+    // (b) the extended flag product x {positive primes, negated primes} x {as is, large, tiny}; and the special components
+    for (const ExtState& e : ext_states (std::numeric_limits<T>::is_integer))
+    {
+        if (e.original ()) continue;
+        auto apply = [&e] (std::ostream& o) { e.apply (o); };
+        const std::string name = e.name ();
+        for (int g = 0; g < 2; ++g)
+            for (int mag = 0; mag < 3; ++mag)
+            {
+                generic_tuple<T> (g, N, ga, gb);
+                if (!stream_magnitude<T> (mag, N, ga)) continue;
+                e.classify (t);
+                stream_one<A> (t, ga, apply, name, ".extended-state");
+            }
+        specials (apply, name);
+    }
 }
 
 // ------------------------------------------------------------------------------------------
@@ -1571,7 +1850,7 @@ template <class A> void reg_vec (Jobs& jobs) // Vec2/3/4
     C04_JOB (ST_ARITH, arith_vec_like<A> (t, 1));
     C04_JOB (ST_ARITH, arith_vec_like<A> (t, 2));
     C04_JOB (ST_EQ, EqTest<A> (t).run (); ApxTest<A> (t).run ());
-    C04_JOB (ST_LAYOUT, layout_core<A> (t); layout_getvalue<A> (t); layout_broadcast<A> (t); interop_vec<A> (t));
+    C04_JOB (ST_LAYOUT, layout_core<A> (t); layout_getvalue<A> (t); layout_broadcast<A> (t); interop_vec<A> (t); interop_vec_extra<A> (t));
 }
 template <class A> void reg_color3 (Jobs& jobs) // inherits ==, equalWith*, [], getValue from Vec3
 {
